@@ -291,6 +291,33 @@ func c05Eval(c *fw.Ctx, data any) {
 		ok = false
 		c.Violation(kind, "extent", "Len", fmt.Sprintf("decoded value reports Len() = %d, its encoding occupies %d bytes (a container would skip the wrong amount)", len2, len(enc)))
 	}
+	// whole messages once more into the value their constructor hands out (a decode target a user may well pick):
+	// the result must be the same message, whatever the constructor pre-filled
+	if cs.Mode == "ctrl" || cs.Mode == "switch" {
+		if tgt := ctorTarget(m.K); tgt != nil {
+			var r3 *rec.Rec
+			var e3, d3 error
+			p, pv, st = fw.Recover(func() {
+				if d3 = tgt.UnmarshalBinary(append([]byte(nil), enc...)); d3 == nil {
+					r3, e3 = extract(tgt)
+				}
+			})
+			c.Count("decodes_into_constructor_made_values", 1)
+			switch {
+			case p:
+				ok = false
+				c.Violation(kind, "panic", "decode-into-constructor-value:"+fw.LibFrame(st), pv+"\n"+fw.TrimStack(st))
+			case d3 != nil:
+				ok = false
+				c.Violation(kind, "decode-error", "decode-into-constructor-value", fmt.Sprintf("decoding the library's own encoding into a constructor-made %T failed: %v", tgt, d3))
+			case e3 == nil:
+				for _, d := range rec.DiffAll(spec.Canon(r1), spec.Canon(r3), 4) {
+					ok = false
+					c.Violation(kind, "roundtrip", "decode-into-constructor-value:"+locusOf(r1, d.Path), fmt.Sprintf("field %s: built vs decoded into a constructor-made %T: %s", d.Path, tgt, d.Detail))
+				}
+			}
+		}
+	}
 	if ok {
 		c.Count("roundtrip_ok", 1)
 		if c.WantSample() && len(enc) < 200 && len(nested) >= 1 {
@@ -300,3 +327,33 @@ func c05Eval(c *fw.Ctx, data any) {
 }
 
 var _ = common.Header{}
+
+// ctorTarget returns a constructor-made value of the message kind (nil if the kind has no constructor).
+func ctorTarget(kind string) util.Message {
+	switch kind {
+	case "hello":
+		h, _ := common.NewHello(4)
+		return h
+	case "flow_mod":
+		return of.NewFlowMod()
+	case "group_mod":
+		return of.NewGroupMod()
+	case "packet_out":
+		return of.NewPacketOut()
+	case "port_mod":
+		return of.NewPortMod(7)
+	case "set_config", "get_config_reply":
+		return of.NewSetConfig()
+	case "features_reply":
+		return of.NewFeaturesReply()
+	case "packet_in":
+		return of.NewPacketIn()
+	case "flow_removed":
+		return of.NewFlowRemoved()
+	case "port_status":
+		return of.NewPortStatus()
+	case "error":
+		return of.NewErrorMsg()
+	}
+	return nil
+}
